@@ -135,14 +135,27 @@ def run(ctx: Ctx):
     keep = []
     npairs = 0
     kinds: dict[str, int] = {}
-    for t in range(n_trees):
-        holder, ext = irgen.gen_externals(rng)
-        keep.append(holder)
-        fwd = rng.random() < 0.6
-        a = irgen.gen_op(rng, ext, depth=rng.choice([0, 1, 2]), forward_refs=fwd)
+    def sources():
+        for _t in range(n_trees):
+            holder, ext = irgen.gen_externals(rng)
+            keep.append(holder)
+            fwd = rng.random() < 0.6
+            yield holder, ext, irgen.gen_op(rng, ext, depth=rng.choice([0, 1, 2]), forward_refs=fwd), fwd, "generated"
+        # the test corpus: modules of every dialect (their clones and single-point mutants)
+        from .c01_c2s import corpus_modules
+
+        for name, module, _x in corpus_modules(ctx.rng("corpus"), 40 if ctx.quick else 1500, max_ops=45):
+            keep.append(module)
+            yield None, [], module, False, "corpus:" + name
+
+    n_corpus = 0
+    for holder, ext, a, fwd, tag in sources():
         u = Universe()
-        u.register_tree(holder.first_op)
-        u.block(holder)
+        if holder is not None:
+            u.register_tree(holder.first_op)
+            u.block(holder)
+        else:
+            n_corpus += 1
         u.register_tree(a)
         pairs: list[dict[str, Any]] = []
         meta: list[dict[str, Any]] = []
@@ -187,7 +200,10 @@ def run(ctx: Ctx):
         # mutants of further clones
         for kind in rng.sample(MUTATIONS, 7 if ctx.quick else len(MUTATIONS)):
             m = a.clone()
-            if not mutate(rng, m, kind, ext):
+            try:
+                if not mutate(rng, m, kind, ext):
+                    continue
+            except Exception:  # noqa: BLE001   (a mutation that does not fit arbitrary corpus IR)
                 continue
             u.register_tree(m)
             ask(a, m, f"mutant {kind}", forward_refs=fwd, mutation=kind)
@@ -198,7 +214,7 @@ def run(ctx: Ctx):
         cases.append({"c": u.project(extras=True), "pairs": pairs})
         metas.append(meta)
         npairs += len(pairs)
-    ctx.log(f"{n_trees} generated trees, {npairs} pairs asked of the real is_structurally_equivalent")
+    ctx.log(f"{n_trees} generated trees, {n_corpus} corpus modules, {npairs} pairs asked of the real is_structurally_equivalent")
     res = casecheck.run_cases("ir/IRIsoCases.tla", cases, min_per_shard=4)
     for idx, tail in res.mismatches:
         clause, j = tail[0], tail[1]
@@ -210,8 +226,8 @@ def run(ctx: Ctx):
                     {"clause": clause, "what": m["what"].split(" (")[0], "root": m["root"], "forward_refs": bool(m.get("forward_refs")),
                      "mutation": m.get("mutation", ""), "pair": p, "raised": m.get("raised", "")}, clause=clause)
     ctx.coverage.update({"evaluations": npairs, "distinct_nontrivial": npairs - kinds.get("reflexive op", 0),
-                         "pair_kinds": kinds, "trees": n_trees, "judge_states": res.states,
-                         "rule": "generated test-dialect trees (multi-block, nested, external operands, 60% with use-before-def); pairs: reflexive "
+                         "pair_kinds": kinds, "trees": n_trees, "corpus_modules": n_corpus, "judge_states": res.states,
+                         "rule": "generated test-dialect trees (multi-block, nested, external operands, 60% with use-before-def) and parseable corpus chunks <= 45 ops; pairs: reflexive "
                                  "(op/region/block/attached op), clone, and clones with one single-point mutation of each kind; both directions; "
                                  "non-trivial = every pair other than 'reflexive op'"})
     ctx.sample({"pairs": cases[0]["pairs"][:4], "meta": metas[0][:4]})
